@@ -866,23 +866,27 @@ class TrajectoryStore:
         # that is refused can simply be retried.)
         store_data = []
         fieldset_names: set[str] | None = None
-        index_groups = []
+        has_index = []
         assert input_stores is not None
         for input_store in input_stores:
             p = Path(input_store)
-            ts = TrajectoryStore.open(base_file=p)
+            # Only plain values are kept from each input store, and the store
+            # is closed again straight away: NetCDF4 objects must not outlive
+            # the Dataset they belong to.
+            with TrajectoryStore.open(base_file=p) as ts:
+                input_fieldset_names = set(ts._nc.keys())
+                store_data.append((p.name, len(ts)))
+                has_index.append(ts.index_group is not None)
             if fieldset_names is None:
-                fieldset_names = set(ts._nc.keys())
-            if fieldset_names != set(ts._nc.keys()):
+                fieldset_names = input_fieldset_names
+            if fieldset_names != input_fieldset_names:
                 raise ValueError(
                     'All input TrajectoryStore files must have the same field sets'
                 )
-            store_data.append((p.name, len(ts)))
-            index_groups.append(ts.index_group)
 
         # Check indexability consistency.
-        indexable = all(g is not None for g in index_groups)
-        if indexable != any(g is not None for g in index_groups):
+        indexable = all(has_index)
+        if indexable != any(has_index):
             raise ValueError('Either all or none of the input stores must be indexable')
 
         # Create output directory.
@@ -1640,16 +1644,16 @@ class TrajectoryStore:
         trajectory_indexes = []
         index_offset = 0
         for input_store in input_stores:
-            ts = TrajectoryStore.open(
+            with TrajectoryStore.open(
                 base_file=Path(output_store) / Path(input_store).name
-            )
-            assert ts.index_group is not None
-            vs = ts.index_group.variables
-            flight_ids += list(vs['flight_id'][:])
-            trajectory_indexes += [
-                idx + index_offset for idx in vs['trajectory_index'][:]
-            ]
-            index_offset += len(ts)
+            ) as ts:
+                assert ts.index_group is not None
+                vs = ts.index_group.variables
+                flight_ids += list(vs['flight_id'][:])
+                trajectory_indexes += [
+                    idx + index_offset for idx in vs['trajectory_index'][:]
+                ]
+                index_offset += len(ts)
         id_pairs = sorted(zip(trajectory_indexes, flight_ids), key=lambda x: x[1])
         index_group.variables['flight_id'][:] = [id for _, id in id_pairs]
         index_group.variables['trajectory_index'][:] = [idx for idx, _ in id_pairs]
